@@ -116,8 +116,12 @@ def detour(
       raise TypeError(
           f'Detour destination {dest!r} is not a class or a function.')
 
+  # Enter before the `try`: if entering fails (e.g. the `__new__` of a builtin
+  # source class cannot be replaced) no scope has been pushed, so there is
+  # nothing to leave - popping here would drop the *enclosing* detour scope.
+  resolved_mappings = _global_detour_context.enter_scope(mappings)
   try:
-    yield _global_detour_context.enter_scope(mappings)
+    yield resolved_mappings
   finally:
     _global_detour_context.leave_scope()
 
@@ -230,8 +234,11 @@ class _DetourContext:
 
     for src, dest in new_mappings:
       if src not in self._original_new:
-        self._original_new[src] = src.__new__
+        original_new = src.__new__
         setattr(src, '__new__', _maybe_detoured_new)
+        # Record only what was really replaced: a class whose `__new__` cannot
+        # be set must not look detourable to a later scope.
+        self._original_new[src] = original_new
       cur_mappings[src] = dest
     self._detour_stack.append(cur_mappings)
     return cur_mappings
